@@ -421,11 +421,150 @@ func runC17(c *Cfg) {
 			r.Sample("grid", cs)
 		}
 	})
+	// large batches with distinguishable per-item outcomes: what exec returned for item i is what post finds at i
+	var lb []*BigBatchCase
+	for _, n := range []int{3, 64, 128, 200, 300, 1000} {
+		for _, cc := range []int{0, 2, 8, 16} {
+			for v := 0; v < 4; v++ {
+				lb = append(lb, &BigBatchCase{Family: "batch-per-item-outcomes", N: n, C: cc, ExecR: v&1 != 0, Builder: v&2 != 0, FailEvery: []int{0, 7, 50}[(n+cc+v)%3], FailAs: []string{"error", "error-result"}[(n/64+v)%2]})
+			}
+		}
+	}
+	parallel(c, len(lb), func(i int) {
+		cs := lb[i]
+		fs := runBigBatchCase(cs)
+		r.Eval()
+		r.Count("context.batch-large", 1)
+		for _, f := range fs {
+			r.Violate("C17", "C17:"+f.key, f.detail, cs)
+		}
+		r.Nontrivial(fmt.Sprintf("big %d %d %v %v %d %s", cs.N, cs.C, cs.ExecR, cs.Builder, cs.FailEvery, cs.FailAs))
+	})
 	r.Exhaustive = true
 	r.Note(fmt.Sprintf("style x construction x context x error-result grid enumerated completely over %d zoo payloads: %d cases", nz, len(cases)))
 }
 
+// BigBatchCase: n items with distinguishable outcomes, some of them failing.
+type BigBatchCase struct {
+	Family    string `json:"family"`
+	N         int    `json:"n"`
+	C         int    `json:"c"`
+	ExecR     bool   `json:"exec_r"`
+	Builder   bool   `json:"builder"`
+	FailEvery int    `json:"fail_every"` // > 0: items i with i%FailEvery == 3 fail
+	FailAs    string `json:"fail_as"`    // "error": (_, err); "error-result": Result-style exec returns (NewErrorResult(err), nil)
+	Big       bool   `json:"big"`
+}
+
+type bigErr struct{ I int }
+
+func (e *bigErr) Error() string { return fmt.Sprintf("item %d fails", e.I) }
+
+func runBigBatchCase(cs *BigBatchCase) (fs []finding) {
+	add := func(key, f string, a ...any) {
+		if len(fs) < 3 {
+			fs = append(fs, finding{key, fmt.Sprintf(f, a...)})
+		}
+	}
+	defer func() {
+		if pn := recover(); pn != nil {
+			fs = append(fs, finding{"panic:batch-large", fmt.Sprint(pn)})
+		}
+	}()
+	fails := func(i int) bool { return cs.FailEvery > 0 && i%cs.FailEvery == 3 }
+	outs := make([]*int, cs.N) // what exec returned for item i (a fresh pointer per item)
+	prepB := func(ctx context.Context, s *flyt.SharedStore) ([]flyt.Result, error) {
+		rs := make([]flyt.Result, cs.N)
+		for i := range rs {
+			rs[i] = flyt.NewResult(i)
+		}
+		return rs, nil
+	}
+	execAny := func(ctx context.Context, v any) (any, error) {
+		i := v.(int)
+		if fails(i) {
+			return nil, &bigErr{i}
+		}
+		p := new(int)
+		*p = i
+		outs[i] = p
+		return p, nil
+	}
+	execRes := func(ctx context.Context, it flyt.Result) (flyt.Result, error) {
+		i := it.Value().(int)
+		if fails(i) {
+			if cs.FailAs == "error-result" {
+				return flyt.NewErrorResult(&bigErr{i}), nil
+			}
+			return flyt.Result{}, &bigErr{i}
+		}
+		p := new(int)
+		*p = i
+		outs[i] = p
+		return flyt.NewResult(p), nil
+	}
+	var bn *flyt.BatchNodeBuilder
+	if cs.Builder {
+		bn = flyt.NewBatchNode().WithBatchConcurrency(cs.C).WithPrepFunc(prepB)
+		if cs.ExecR {
+			bn = bn.WithExecFunc(execRes)
+		} else {
+			bn = bn.WithExecFuncAny(execAny)
+		}
+	} else {
+		opts := []any{flyt.WithBatchConcurrency(cs.C)}
+		if cs.ExecR {
+			opts = append(opts, flyt.WithExecFunc(execRes))
+		} else {
+			opts = append(opts, flyt.WithExecFuncAny(execAny))
+		}
+		bn = flyt.NewBatchNode(opts...).WithPrepFunc(prepB)
+	}
+	var slots []flyt.Result
+	posts := 0
+	bn = bn.WithPostFunc(func(ctx context.Context, s *flyt.SharedStore, items, results []flyt.Result) (flyt.Action, error) {
+		posts++
+		slots = results
+		return "next", nil
+	})
+	if _, err := flyt.Run(context.Background(), bn, flyt.NewSharedStore()); err != nil {
+		add("batch-run-error", "batch run failed: %v", err)
+		return
+	}
+	if posts != 1 || len(slots) != cs.N {
+		add("batch-large-slots", "post called %d times with %d results for %d items", posts, len(slots), cs.N)
+		return
+	}
+	for i, sl := range slots {
+		if fails(i) {
+			var be *bigErr
+			if !sl.IsError() || !errors.As(sl.Error(), &be) || be.I != i {
+				add("batch-large-slot-error", "exec failed for item %d of %d (concurrency %d); post received for it %s (IsError=%v) — not the outcome exec returned for that item", i, cs.N, cs.C, zoo.Describe(sl.Value()), sl.IsError())
+			}
+			continue
+		}
+		if sl.IsError() || sl.Value() != any(outs[i]) {
+			what := zoo.Describe(sl.Value())
+			if p, ok := sl.Value().(*int); ok && p != nil {
+				what = fmt.Sprintf("the value exec returned for item %d", *p)
+			} else if sl.IsError() {
+				what = "error: " + sl.Error().Error()
+			}
+			add("batch-large-slot-value", "post received for item %d of %d (concurrency %d): %s — not the value exec returned for that item", i, cs.N, cs.C, what)
+		}
+	}
+	return
+}
+
 func replayC17(c *Cfg, spec json.RawMessage) {
+	var big BigBatchCase
+	if json.Unmarshal(spec, &big) == nil && big.Family == "batch-per-item-outcomes" {
+		for _, f := range runBigBatchCase(&big) {
+			fmt.Printf(" * finding %s: %s\n", f.key, f.detail)
+			c.Rep.Violate("C17", "C17:"+f.key, f.detail, big)
+		}
+		return
+	}
 	var cs FnCase
 	if err := json.Unmarshal(spec, &cs); err != nil {
 		fmt.Println("cannot parse:", err)
